@@ -1099,14 +1099,19 @@ impl Gen {
             deposits_enabled: b(&mut self.rng),
             swaps_enabled: b(&mut self.rng),
         };
+        // one time in four the switches travel together with an (unchanged) configuration value
+        let cfg = c.w.pm_config();
+        let (mut fee_collector_addr, mut farm_manager_addr, mut pool_creation_fee) = (None, None, None);
+        if self.rng.chance(1, 4) {
+            match self.rng.below(3) {
+                0 => fee_collector_addr = Some(cfg.fee_collector_addr.to_string()),
+                1 => farm_manager_addr = Some(cfg.farm_manager_addr.to_string()),
+                _ => pool_creation_fee = Some(cfg.pool_creation_fee.clone()),
+            }
+        }
         Op::Pm {
             sender,
-            msg: PmMsg::UpdateConfig {
-                fee_collector_addr: None,
-                farm_manager_addr: None,
-                pool_creation_fee: None,
-                feature_toggle: Some(ft),
-            },
+            msg: PmMsg::UpdateConfig { fee_collector_addr, farm_manager_addr, pool_creation_fee, feature_toggle: Some(ft) },
             funds: vec![],
         }
     }
